@@ -273,6 +273,7 @@ done:
 	return ret;
 }
 
+int rc_lenient_width = 1;   /* 1 (the documented C01 oracle): RSA / ECDSA signatures are judged as integers, whatever their zero-padded width; 0: RFC 7518 widths only */
 int rc_verify(const vk_t *k, jwt_alg_t alg, const void *msg, size_t n, const unsigned char *sig, size_t siglen)
 {
 	rc_family_t fam = rc_family(alg);
@@ -286,8 +287,13 @@ int rc_verify(const vk_t *k, jwt_alg_t alg, const void *msg, size_t n, const uns
 		if (strcmp(k->kty, "RSA"))
 			return 0;
 		key = tmp = plain_rsa(k->pkey_pub, 0);
-		/* integer level: any zero-padded width, value below n */
+		/* integer level, value below n; the octet string must have the length of the modulus (RFC 8017 8.2.2 step 1,
+		 * RFC 7518 3.3): a longer, zero-led string is an extended signature, not a valid one */
 		int mlen = EVP_PKEY_get_size(key);
+		if ((int)siglen != mlen && !rc_lenient_width) {
+			EVP_PKEY_free(tmp);
+			return 0;
+		}
 		BIGNUM *v = BN_bin2bn(sig, (int)siglen, NULL);
 		BIGNUM *nn = NULL;
 		EVP_PKEY_get_bn_param(key, OSSL_PKEY_PARAM_RSA_N, &nn);
@@ -302,6 +308,9 @@ int rc_verify(const vk_t *k, jwt_alg_t alg, const void *msg, size_t n, const uns
 		siglen = mlen;
 	} else if (fam == RC_FAM_ES) {
 		if (strcmp(k->kty, "EC") || siglen == 0 || (siglen & 1))
+			return 0;
+		/* R and S are fixed-width octet strings of the curve's size (RFC 7518 3.4) */
+		if (siglen != 2 * (size_t)((k->bits + 7) / 8) && !rc_lenient_width)
 			return 0;
 		ECDSA_SIG *es = ECDSA_SIG_new();
 		BIGNUM *r = BN_bin2bn(sig, (int)(siglen / 2), NULL);
